@@ -23,7 +23,7 @@ CHECKS = {
    ref="DESIGN.md §6 C04", note="trusted base: the predicate in harness/props/c04.go (written from the statement and the standard's set definitions), rapid"),
  "C05": dict(
    technique="stateful property-based differential testing (rapid): lock-step comparison of generated setter histories against the reference model's API setter algorithms; bounded-exhaustive enumeration of single setter calls (all values of up to 2/3 critical tokens x 17 starts x 9 setters) and of all 2-/3-step setter histories; native fuzzing",
-   text="Generated start URLs and 1..8 (setter, value) steps (a step in twelve continues on a Clone of the implementation's URL) applied in lock step to the implementation and to the reference model's setters; Href and all nine getters are compared after every step, so partial application and rejection are checked exactly. The evidence histogram shows every setter outcome (guard, failure state, override early return) and all 81 ordered setter pairs.",
+   text="Generated start URLs and 1..8 (setter, value) steps (a step in twelve continues on a Clone of the implementation's URL; in a quarter of the histories nothing is read from the URL between the steps and the comparison is made after the last step only) applied in lock step to the implementation and to the reference model's setters; Href and all nine getters are compared after every step, so partial application and rejection are checked exactly. The evidence histogram shows every setter outcome (guard, failure state, override early return) and all 81 ordered setter pairs.",
    ref="DESIGN.md §6 C05, §3", note=MODEL),
  "C19": dict(
    technique="stateful property-based testing (rapid): derived accessors recomputed from primary getters after every step of generated parse/setter/resolve/clone histories; bounded-exhaustive enumeration of all 2-/3-step setter histories followed by Clone and a resolution; native fuzzing",
